@@ -1,6 +1,6 @@
 """C11 - OffsetDateTime / OffsetDate / OffsetTime / ZonedDateTime keep instant, local time, offset, calendar in step.
 
-Model checking, three exhaustive parts over explicit finite alphabets, each in lock-step with the int model
+Model checking, four exhaustive parts over explicit finite alphabets, each in lock-step with the int model
 vf/models/offsetref.py:
 
   odt      breadth-first exploration (depth 2) of every operation sequence over an operation alphabet (with_offset,
@@ -9,6 +9,10 @@ vf/models/offsetref.py:
            States are canonicalised (local day, nanosecond of day, offset, calendar) and de-duplicated globally.
   zdt      the same for ZonedDateTime over (instant x zone x calendar) with +/- Duration, instants placed on and
            next to real transitions of the zones (offset must be re-derived from the zone).
+  zclock   histories: one ZonedClock over one FakeClock per history, EVERY sequence of <= 3 clock movements (advance to the
+           next transition, advance back to 1 ns before the current interval, +/-1 ns, negative auto-advance, reset to
+           instants on / next to real transitions) with every getter read after each movement, for the zones with
+           transitions in ISO and non-ISO calendars (a reading must not depend on earlier readings of the same object).
   offsets  complete sweep of ALL 129,601 offsets of the +/-18 h range (x a nanosecond-of-day alphabet containing the
            bit-46/47 packing boundaries) through OffsetTime packing, Instant.with_offset and with_offset(-o).
 """
@@ -1071,9 +1075,8 @@ def zclock_targets(zidx, tier, seed):
                 if x not in xs:
                     xs.append(x)
     if tier == "thorough":
-        for x in zdt_instants(zidx, tier, seed)[0]:
-            if x not in xs and E.ranges.imin + 400 * NSD < x < E.ranges.imax - 400 * NSD:
-                xs.append(x)
+        more = [x for x in zdt_instants(zidx, tier, seed)[0] if x not in xs and E.ranges.imin + 400 * NSD < x < E.ranges.imax - 400 * NSD]
+        xs += more[:: max(1, len(more) // 6)][:6]       # 14 reset targets at most: the history space grows with the cube
     return xs
 
 
@@ -1403,7 +1406,7 @@ def run(ctx):
         ctx.note("zdt zones", ntr)
 
     if not only or "zclock" in only:
-        zc_cals = ["Julian", "Hebrew Civil", "ISO"] if tier == "quick" else ["Julian", "Hebrew Civil", "ISO", "Badi", "Persian Simple", "Coptic"]
+        zc_cals = ["Julian", "Hebrew Civil", "ISO"] if tier == "quick" else ["Julian", "Hebrew Civil", "ISO", "Badi"]
         zc_cals = [c for c in zc_cals if c in E.cals]
         jobs = [(tier, zidx, c, seed, 3) for zidx, (zid, z) in enumerate(E.zones) for c in zc_cals
                 if zone_transitions(z, 25567 * NSD, rg)]
@@ -1411,7 +1414,7 @@ def run(ctx):
             ctx.merge_part("zclock", acc)
         if tier == "quick":
             ctx.cap("quick tier: ZonedClock histories in calendars %s with resets to 8 transition-adjacent instants per zone; "
-                    "thorough adds calendars and the whole zdt instant alphabet as reset targets" % zc_cals)
+                    "thorough adds Badi and 6 more reset targets from the zdt instant alphabet" % zc_cals)
 
     if not only or "offsets" in only:
         jobs = [(tier, a, b, seed) for a, b in chunks(R.OFFSET_MIN_S, R.OFFSET_MAX_S + 1, 2048)]
